@@ -31,7 +31,7 @@ func TestC03(t *testing.T) {
 	defer finishProperty(st)
 	t.Run("mmap-probe", func(t *testing.T) { c03MMapProbe(t, st) })
 	t.Run("random", func(t *testing.T) {
-		rapid.Check(t, func(t *rapid.T) { c03Run(t, st, "C03", c03Profile, nil) })
+		checkCases(t, st, func(t *rapid.T) { c03Run(t, st, "C03", c03Profile, nil) })
 	})
 }
 
